@@ -28,8 +28,9 @@ import (
 )
 
 type scenario struct {
-	Mode      string  `json:"mode"` // union-field | combine-fields | lattice
-	API       string  `json:"api"`  // March | MarchOnAttribute | Field.March
+	Mode      string  `json:"mode"`  // union-field | combine-fields | lattice
+	API       string  `json:"api"`   // March | MarchOnAttribute | MarchParallel | Field.March
+	Adder     string  `json:"adder"` // AddField | AddFieldParallel | AddFieldParallel2 (how the canvas is filled)
 	Attr      string  `json:"attribute"`
 	CPU       float64 `json:"cubes_per_unit"`
 	Cut       float64 `json:"threshold"`
@@ -46,6 +47,8 @@ type scenario struct {
 	NegShare  float64 `json:"negative_share,omitempty"`
 	table     []float64
 }
+
+var adders = []string{"AddField", "AddFieldParallel", "AddFieldParallel2"}
 
 var cpuList = []float64{1.5, 2, 2.5, 3, 4, 5, 6, 7.5, 8, 10, 12}
 var cuts = []float64{0, -0.05, -0.2}
@@ -88,9 +91,8 @@ func genAnalytic(r *rand.Rand, long bool) *scenario {
 	}
 	// MarchOnAttribute is only usable with the position attribute (any other name panics in its
 	// scale transform - reported separately, attribute names are outside the property's quantifier)
-	if r.Intn(3) == 0 {
-		sc.API = "MarchOnAttribute"
-	}
+	sc.API = []string{"March", "MarchOnAttribute", "MarchParallel"}[r.Intn(3)]
+	sc.Adder = adders[r.Intn(len(adders))]
 	strength := func() float64 {
 		if sc.Mode == "union-field" {
 			return []float64{1, 1, 1, 2, 0.75}[r.Intn(5)]
@@ -203,9 +205,8 @@ func genAnalytic(r *rand.Rand, long bool) *scenario {
 // table's boundary, placed across a block corner / edge / face.
 func genLattice(r *rand.Rand) *scenario {
 	sc := &scenario{Mode: "lattice", CPU: pickCPU(r), Cut: cuts[r.Intn(len(cuts))], Attr: modeling.PositionAttribute, API: "March"}
-	if r.Intn(3) == 0 {
-		sc.API = "MarchOnAttribute"
-	}
+	sc.API = []string{"March", "MarchOnAttribute", "MarchParallel"}[r.Intn(3)]
+	sc.Adder = adders[r.Intn(len(adders))]
 	axes, k := pickStraddle(r, [4]float64{0.10, 0.25, 0.30, 0.35})
 	sc.Straddle = k
 	var b [3]int
@@ -288,7 +289,7 @@ func (sc *scenario) describe() string {
 	if sc.Mode == "lattice" {
 		sh = append(sh, fmt.Sprintf("random table %v at lattice origin %v, %.0f%% negative", sc.TableN, sc.TableBase, sc.NegShare*100))
 	}
-	return fmt.Sprintf("%s via %s, cubesPerUnit=%v threshold=%v, %s [%s]", sc.Mode, sc.API, sc.CPU, sc.Cut, sc.Placement, strings.Join(sh, "; "))
+	return fmt.Sprintf("%s via %s+%s, cubesPerUnit=%v threshold=%v, %s [%s]", sc.Mode, sc.Adder, sc.API, sc.CPU, sc.Cut, sc.Placement, strings.Join(sh, "; "))
 }
 
 func (sc *scenario) kinds() string {
@@ -336,14 +337,27 @@ func execute(c *run.Ctx, sc *scenario) run.Result {
 	site := "MarchingCanvas." + sc.API
 	var canvas *marching.MarchingCanvas
 	if sc.API != "Field.March" {
-		c.Note("AddField " + desc)
+		if sc.Adder == "" {
+			sc.Adder = "AddField"
+		}
+		c.Note(sc.Adder + " " + desc)
 		canvas = marching.NewMarchingCanvas(sc.CPU)
-		if p := run.Try(func() { canvas.AddField(wrapped) }); p != nil {
-			res.Violate("addfield-panic", "MarchingCanvas.AddField", sc.Mode, fmt.Sprintf("%s (at %s) || case: %s", p.Value, p.Site, desc), sc)
+		if p := run.Try(func() {
+			switch sc.Adder {
+			case "AddFieldParallel":
+				canvas.AddFieldParallel(wrapped)
+			case "AddFieldParallel2":
+				canvas.AddFieldParallel2(wrapped)
+			default:
+				canvas.AddField(wrapped)
+			}
+		}); p != nil {
+			res.Violate("addfield-panic", "MarchingCanvas."+sc.Adder, sc.Mode, fmt.Sprintf("%s (at %s) || case: %s", p.Value, p.Site, desc), sc)
 			return res
 		}
 	} else {
 		site = "marching.Field.March"
+		sc.Adder = "none"
 	}
 	var mesh modeling.Mesh
 	march := func() *run.PanicInfo {
@@ -354,12 +368,14 @@ func execute(c *run.Ctx, sc *scenario) run.Result {
 				mesh = canvas.March(sc.Cut)
 			case "MarchOnAttribute":
 				mesh = canvas.MarchOnAttribute(sc.Attr, sc.Cut)
+			case "MarchParallel":
+				mesh = canvas.MarchParallel(sc.Cut)
 			default:
 				mesh = wrapped.March(sc.Attr, sc.CPU, sc.Cut)
 			}
 		})
 	}
-	input := fmt.Sprintf("%s, %d boundary axes", sc.Mode, sc.Straddle)
+	input := fmt.Sprintf("%s, %s, %d boundary axes", sc.Mode, sc.Adder, sc.Straddle)
 	reportPanic := func(p *run.PanicInfo) {
 		class := "march-panic"
 		if p.Runtime {
@@ -373,6 +389,7 @@ func execute(c *run.Ctx, sc *scenario) run.Result {
 			return res
 		}
 	}
+	rec.finish()
 	if rec.samples == 0 {
 		res.Violate("field-never-sampled", site, sc.Mode, "the field function was not evaluated at any lattice point || case: "+desc, sc)
 		return res
@@ -446,13 +463,13 @@ func execute(c *run.Ctx, sc *scenario) run.Result {
 	st := g.stats()
 	res.Count("lattice_samples", int64(rec.samples))
 	if rec.offGrid > 0 {
-		res.Count("field_evaluations_off_the_lattice", int64(rec.offGrid))
+		res.Count("field_evaluations_off_the_lattice", rec.offGrid)
 	}
 	if rec.repeated > 0 && sc.API != "Field.March" {
-		res.Count("lattice_points_sampled_more_than_once_by_addfield", int64(rec.repeated))
+		res.Count("lattice_points_sampled_more_than_once_by_addfield", rec.repeated)
 	}
 	if mismatch > 0 {
-		res.Violate("field-sample-mismatch", builder, sc.Mode, fmt.Sprintf("%d sampled lattice points are on the other side of the threshold than for the union of the shapes; %s || case: %s", mismatch, firstMis, desc), sc)
+		res.Violate("field-sample-mismatch", builder+" sampled by "+sc.Adder, sc.Mode, fmt.Sprintf("%d sampled lattice points are on the other side of the threshold than for the union of the shapes; %s || case: %s", mismatch, firstMis, desc), sc)
 	}
 	if outsideDomain > 0 {
 		if sc.Mode != "combine-fields" {
@@ -462,7 +479,7 @@ func execute(c *run.Ctx, sc *scenario) run.Result {
 		res.Violate("domain-does-not-contain-shape", builder, sc.Mode, fmt.Sprintf("the domain chosen by the marching package's field constructors leaves %d below-threshold lattice points outside; %s || case: %s", outsideDomain, firstOutside, desc), sc)
 	}
 	if unsampledInside > 0 {
-		res.Violate("below-threshold-point-not-sampled", "MarchingCanvas.AddField", sc.Mode, fmt.Sprintf("%d below-threshold lattice points inside the declared domain were never sampled; %s || case: %s", unsampledInside, firstUns, desc), sc)
+		res.Violate("below-threshold-point-not-sampled", "MarchingCanvas."+sc.Adder, sc.Mode, fmt.Sprintf("%d below-threshold lattice points inside the declared domain were never sampled; %s || case: %s", unsampledInside, firstUns, desc), sc)
 	}
 	if thin && len(res.Violations) == 0 { // refutations that do not depend on the weld are reported regardless
 		res.Inconclusive = "degenerate (surface feature thinner than the 0.001 weld): " + thinWhy
@@ -541,6 +558,15 @@ func execute(c *run.Ctx, sc *scenario) run.Result {
 	}
 	res.SetAdd("entry_points", sc.API)
 	res.SetAdd("field_builders", builder)
+	res.SetAdd("adders", sc.Adder)
+	res.SetAdd("adder_x_builder_x_march", sc.Adder+" | "+builder+" | "+sc.API)
+	if sc.Adder != "AddField" && len(st.Blocks) >= 2 && len(sc.Shapes) >= 2 {
+		if sc.Mode == "combine-fields" {
+			res.Count("parallel_adder_cases_multiblock_combinefields_2plus_shapes", 1)
+		} else {
+			res.Count("parallel_adder_cases_multiblock_sdf_union_2plus_shapes", 1)
+		}
+	}
 	res.SetAdd("thresholds", fmt.Sprint(sc.Cut))
 	res.SetAdd("resolution_buckets", cpuBucket(sc.CPU))
 	res.SetAdd("blocks_with_surface_per_case", fmt.Sprint(len(st.ActiveBlocks)))
@@ -549,7 +575,7 @@ func execute(c *run.Ctx, sc *scenario) run.Result {
 	if sc.Mode == "union-field" && sc.Margin < 0.5 {
 		tight = " tight"
 	}
-	res.Sig = fmt.Sprintf("%s %s %s cpu%s cut%v axes%d blocks%d neg%v%s cfg%d", sc.Mode, sc.API, sc.kinds(), cpuBucket(sc.CPU), sc.Cut, sc.Straddle, len(st.ActiveBlocks), st.NegativeBlocks, tight, st.distinctConfigs()/16)
+	res.Sig = fmt.Sprintf("%s %s+%s %s cpu%s cut%v axes%d blocks%d neg%v%s cfg%d", sc.Mode, sc.Adder, sc.API, sc.kinds(), cpuBucket(sc.CPU), sc.Cut, sc.Straddle, len(st.ActiveBlocks), st.NegativeBlocks, tight, st.distinctConfigs()/16)
 	res.Sample = map[string]any{"scenario": sc, "observed": ob, "blocks_with_surface": len(st.ActiveBlocks), "distinct_configurations": st.distinctConfigs(),
 		"active_cells_on_block_face_edge_corner": st.SeamCells[1:], "lattice_step": h}
 	return res
@@ -674,8 +700,36 @@ func seamWeldCase(c *run.Ctx) run.Result {
 		Shapes:    []shape{{Kind: "sphere", C: vadd(bw, vscale(n, R-depth)), R: R, Strength: 1}}}
 	lo, hi := sc.Shapes[0].bounds()
 	sc.DomLo, sc.DomHi = vsub(lo, vec{h, h, h}), vadd(hi, vec{h, h, h})
+	sc.Adder = adders[c.Case%len(adders)]
+	if c.Case%4 == 3 {
+		sc.API = "MarchParallel"
+	}
 	res := execute(c, sc)
 	res.Count("directed_seam_cases", 1)
+	return res
+}
+
+// parallelFillCase: unions of >= 2 shapes over >= 2 blocks whose canvas is filled by one of the
+// parallel adders (the field function - for CombineFields an octree lookup per sample - is then
+// evaluated by several goroutines at once) and marched sequentially or in parallel. The phase runs
+// few worker processes at a time so that the goroutines of one process really run side by side.
+func parallelFillCase(c *run.Ctx) run.Result {
+	r := c.Rng
+	want := "combine-fields"
+	if c.Case%4 == 3 {
+		want = "union-field"
+	}
+	var sc *scenario
+	for {
+		sc = genAnalytic(r, false)
+		if sc.Mode == want && len(sc.Shapes) >= 2 && sc.Straddle >= 1 {
+			break
+		}
+	}
+	sc.Adder = adders[1+c.Case%2]
+	sc.API = []string{"March", "MarchParallel", "MarchOnAttribute"}[(c.Case/2)%3]
+	res := execute(c, sc)
+	res.Count("parallel_fill_cases", 1)
 	return res
 }
 
@@ -722,8 +776,9 @@ func Spec() *run.Spec {
 		MinObserved: map[string]int64{
 			"cube_configurations": 250, "cube_configurations_in_last_cell_of_a_block": 200,
 			"active_cells_on_block_face": 1000, "active_cells_on_block_edge": 50, "active_cells_on_block_corner": 5,
-			"cases_with_negative_block_coordinates": 20, "long_capsules_over_3_or_more_blocks": 1, "entry_points": 3, "field_builders": 3,
-			"directed_seam_cases": 10, "cases_with_seam_weld_trigger": 10, "fieldmarch_cube_configurations": 250,
+			"cases_with_negative_block_coordinates": 20, "long_capsules_over_3_or_more_blocks": 1, "entry_points": 4, "field_builders": 3,
+			"adders": 3, "adder_x_builder_x_march": 20, "parallel_adder_cases_multiblock_combinefields_2plus_shapes": 5, "parallel_adder_cases_multiblock_sdf_union_2plus_shapes": 5,
+			"parallel_fill_cases": 16, "directed_seam_cases": 10, "cases_with_seam_weld_trigger": 10, "fieldmarch_cube_configurations": 250,
 		},
 		Phases: []run.Phase{
 			{Name: "analytic", Cases: func(t string) int {
@@ -732,6 +787,12 @@ func Spec() *run.Spec {
 				}
 				return 72
 			}, Run: analyticCase, Batch: 2, CPUBudgetS: 120},
+			{Name: "parallel-fill", Cases: func(t string) int {
+				if t == "thorough" {
+					return 400
+				}
+				return 24
+			}, Run: parallelFillCase, Batch: 2, CPUBudgetS: 240, Parallel: 4},
 			{Name: "lattice", Cases: func(t string) int {
 				if t == "thorough" {
 					return 1600
